@@ -25,10 +25,14 @@ EXPLANATION = (
     '(appended and returned reversed, or prepended and returned as built; the '
     'loop may read the link once into a loop-carried name); a heapq frontier '
     'is accepted only if every improved node is pushed again with its new '
-    'priority -bottleneck (no decrease-key); (D3) the working matrix of a '
+    'priority -bottleneck (no decrease-key); the search loop is cut short (and '
+    'the relaxation skipped) only on tests of the finalised mask at the sinks, '
+    'never on a test of the tentative labels (predecessor / bottleneck) of the '
+    'sinks alone; (D3) the working matrix of a '
     'removal scheme is what it returns and is bound once to a copy of the '
     'parameter; its stores (also those of a module-level helper called on it, '
-    'one level) are compared after expansion: the subtract scheme writes the '
+    'one level) are compared after expansion (pure value helpers replaced by '
+    'their return expression; X[a:b][k] read as X[a+k] for k an argmin): the subtract scheme writes the '
     'subtraction THROUGH to the working matrix on the consecutive path edges '
     '(an in-place update of a named advanced-index copy is lost) and then '
     'zeroes the argmin edge; the bottleneck scheme zeroes the argmin edge; '
@@ -37,7 +41,8 @@ EXPLANATION = (
     'path and flux are appended; the loop is left as soon as <number of '
     'recorded paths> >= num_paths or <explained fraction> >= cutoff (counter '
     'from 0 by 1 or len of the result list; fraction from 0 by flux / source '
-    'row sum), tested after recording and before the removal whose result '
+    'row sum; the exit may be a break or a loop flag `while f:` that is set '
+    'once per iteration with all later statements guarded by it), tested after recording and before the removal whose result '
     'replaces the working copy. Optimality among all paths is not decided.')
 
 
@@ -175,7 +180,7 @@ def d2_top_path(ck, mod):
     if v[0] != 'match':
         return
     NBX = u(canon(idx.value))                       # canonical text of the neighbour index set
-    _reach(ck, mod, fi, rule, F, loop, us, NBX, V, sinks)
+    _reach(ck, mod, fi, rule, F, loop, us, NBX, V, sinks, MF, TN)
     sel = v[1]['_SEL']
     # the relaxed values: `<val>` = NF[<sel>] where NF is the clipped edge-flux array
     val = fi.expand(us.value, strict=False)
@@ -273,13 +278,28 @@ def _assumes(fi, mod, stmt, within=None):
     return [a for a in fi.cfg.dom.get(stmt, ()) if isinstance(a, Assume) and (within is None or _inside(mod, a.owner, within))]
 
 
-def _reach(ck, mod, fi, rule, F, loop, us, NBX, V, sinks):
+def _reach(ck, mod, fi, rule, F, loop, us, NBX, V, sinks, MF=None, TN=None):
     """The relaxation `us` must run for every popped node that has neighbours,
     as long as some sink is not finalised: every branch condition it depends
     on inside the search loop must be one of these two (in any spelling /
     nesting); the opposite condition is a violation."""
-    sink_done = {C('%s[%s].all()' % (V, sinks)), C('%s[%s].any()' % (V, sinks)), C('all(%s[%s])' % (V, sinks))}
+    sink_done = {C('%s[%s].all()' % (V, sinks)), C('%s[%s].any()' % (V, sinks)), C('all(%s[%s])' % (V, sinks)), C('any(%s[%s])' % (V, sinks))}
     count = {'len(%s)' % NBX, '%s.size' % NBX, '%s.shape[0]' % NBX}
+    # the tentative labels: the bottleneck array and every array that records the expanded node (predecessor links)
+    labels = {MF} if MF else set()
+    if TN:
+        labels |= {t.value.id for s, t in subscript_stores(loop) if isinstance(t.value, ast.Name) and fi.xu(s.value) == TN}
+    labels -= {V}
+
+    def labels_only(at):
+        """The atom is a pure function of the tentative labels at the sinks and of nothing else (not of the
+        finalised mask, the frontier or the node just expanded)."""
+        from ..match import _closed_over
+        es = [fi.expand(e, strict=False) for e in ((at.lhs, at.rhs) if isinstance(at, Cmp) else (at[1],))]
+        names = set()
+        for e in es:
+            names |= names_loaded(e)
+        return sinks in names and bool(names & labels) and all(_closed_over(e, labels | {sinks}) for e in es)
     for a in sorted(_assumes(fi, mod, us, loop), key=lambda a: a.lineno):
         atoms = conjuncts(a.test, a.polarity)
         txt = '%s%s' % ('' if a.polarity else 'not ', u(a.test))
@@ -303,12 +323,41 @@ def _reach(ck, mod, fi, rule, F, loop, us, NBX, V, sinks):
                     verdict = not pol
                 elif t in count:
                     verdict = bool(pol)
-            if verdict is None:
+            if verdict is None and labels_only(at):
+                ck.bad(rule + '.reach', mod, a.owner, F, txt,
+                       'whether the search goes on after expanding a node is decided from the tentative labels of the sinks alone (`%s`; labels: %s): a sink '
+                       'that has merely been DISCOVERED (it has a predecessor / a bottleneck from the first relaxation that touched it) is not FINALISED - '
+                       'frontier nodes that would still raise its bottleneck are never expanded, so the reported path need not have the largest bottleneck. '
+                       'The search may only be cut short when a sink has been popped (`%s[%s]`)' % (txt[:100], ', '.join(sorted(labels)), V, sinks))
+            elif verdict is None:
                 ck.missing(rule + '.reach', 'condition `%s` under which the relaxation runs is not modelled' % txt[:100])
             else:
                 ck.check(verdict, rule + '.reach', mod, a.owner, F, txt, 'relaxation runs for every expanded node with neighbours while a sink is not finalised',
                          'the relaxation `%s` only runs when `%s`: nodes that have outgoing flux (or every node until all sinks are finalised) are skipped, '
                          'their neighbours never receive a bottleneck' % (u(us)[:60], txt[:80]))
+    # exits of the search loop that do not sit in front of the relaxation (their guards were judged above)
+    judged = {a.owner for a in _assumes(fi, mod, us, loop)}
+    for x in walk_local(loop):
+        if not isinstance(x, (ast.Break, ast.Return)) or (isinstance(x, ast.Break) and _loop_of(mod, x, None) is not loop):
+            continue
+        if any(_inside(mod, x, o) for o in judged):
+            continue
+        conds = [a for a in _assumes(fi, mod, x, loop) if a.owner not in judged]
+        ats = []
+        for a in conds:
+            ats += conjuncts(a.test, a.polarity) or [None]
+        txt = ' and '.join('%s%s' % ('' if a.polarity else 'not ', u(a.test)) for a in conds) or 'unconditionally'
+        done = [at for at in ats if isinstance(at, tuple) and at[2] and fi.xu(at[1], strict=False) in sink_done]
+        lab = [at for at in ats if at is not None and labels_only(at)]
+        if done:
+            ck.ok(rule + '.reach', mod, x, txt, 'the search is cut short only after a sink has been finalised')
+        elif lab:
+            ck.bad(rule + '.reach', mod, x, F, txt,
+                   'the search loop is left on a test of the tentative labels of the sinks alone (`%s`): a sink that has merely been DISCOVERED is not '
+                   'FINALISED - frontier nodes that would still raise its bottleneck are never expanded. The search may only be cut short when a sink '
+                   'has been popped (`%s[%s]`)' % (txt[:100], V, sinks))
+        else:
+            ck.missing(rule + '.reach', 'exit `%s` of the search loop under `%s` is not modelled' % (u(x)[:40], txt[:100]))
 
 
 def _heap_frontier(ck, mod, fn, fi, rule, F):
@@ -654,6 +703,105 @@ def _subst_names(node, mapping):
     return R().visit(_copy.deepcopy(node))
 
 
+def _subst_exprs(node, mapping):
+    """Copy of `node` with every loaded Name in `mapping` replaced by (a copy of) the mapped expression."""
+    import copy as _copy
+
+    class R(ast.NodeTransformer):
+        def visit_Name(self, n):
+            if isinstance(n.ctx, ast.Load) and n.id in mapping:
+                return ast.copy_location(_copy.deepcopy(mapping[n.id]), n)
+            return n
+    return R().visit(_copy.deepcopy(node))
+
+
+def _helper_value(mod, call):
+    """The value of a call `h(a1, ..)` of a module-level VALUE helper, as an
+    expression over the caller's argument expressions; None if `h` is not such
+    a helper.  A value helper has (after the docstring) only assignments of
+    pure expressions to plain local names and one final `return <pure expr>`;
+    it rebinds no parameter and mutates nothing (purity of every right-hand
+    side), so the call is a read-only use of its arguments and equals the
+    return expression with the temporaries expanded and the parameters
+    replaced by the (pure) arguments, evaluated where the call stands."""
+    from ..normal import is_pure
+    if not isinstance(call.func, ast.Name) or call.keywords or any(isinstance(a, ast.Starred) for a in call.args):
+        return None
+    callee = mod.functions.get(call.func.id)
+    if callee is None or callee.decorator_list or callee.args.vararg or callee.args.kwarg or callee.args.kwonlyargs:
+        return None
+    cps = params(callee)
+    if len(cps) != len(call.args) or not all(is_pure(a) for a in call.args):
+        return None
+    body = [s for i, s in enumerate(callee.body)
+            if not (i == 0 and isinstance(s, ast.Expr) and isinstance(s.value, ast.Constant) and isinstance(s.value.value, str))]
+    if not body or not isinstance(body[-1], ast.Return) or body[-1].value is None:
+        return None
+    local = set()
+    for s in body[:-1]:
+        if not (isinstance(s, ast.Assign) and is_pure(s.value)):
+            return None
+        for t in s.targets:
+            for x in (t.elts if isinstance(t, (ast.Tuple, ast.List)) else [t]):
+                if not isinstance(x, ast.Name):
+                    return None
+                local.add(x.id)
+    if local & set(cps):
+        return None
+    hfi = finfo(mod, callee)
+    rv = hfi.expand(body[-1].value)
+    if not is_pure(rv) or any(isinstance(x, ast.Name) and x.id in local for x in ast.walk(rv)):
+        return None
+    return _subst_exprs(rv, dict(zip(cps, call.args)))
+
+
+def _inline_values(mod, expr):
+    """`expr` with every call of a module-level value helper (see _helper_value) replaced by its value."""
+    import copy as _copy
+
+    class R(ast.NodeTransformer):
+        def visit_Call(self, n):
+            self.generic_visit(n)
+            v = _helper_value(mod, n)
+            return ast.copy_location(v, n) if v is not None else n
+    return R().visit(_copy.deepcopy(expr))
+
+
+def _nonneg_scalar(k):
+    """k is known to be a non-negative integer scalar: a flat arg-reduction `x.argmin()` / `x.argmax()`
+    (canonical method spelling, no axis), int() of one, a non-negative int literal, or a sum of those."""
+    if isinstance(k, ast.Constant):
+        return type(k.value) is int and k.value >= 0
+    if isinstance(k, ast.Call) and call_name(k) == 'int' and len(k.args) == 1 and not k.keywords:
+        return _nonneg_scalar(k.args[0])
+    if isinstance(k, ast.Call) and isinstance(k.func, ast.Attribute) and k.func.attr in ('argmin', 'argmax') and not k.args and not k.keywords:
+        return True
+    if isinstance(k, ast.BinOp) and isinstance(k.op, ast.Add):
+        return _nonneg_scalar(k.left) and _nonneg_scalar(k.right)
+    return False
+
+
+def _fold_slice_index(expr):
+    """Identity  X[a:b][K] == X[a + K]  (X[:b][K] == X[K])  for a literal a >= 0 (or absent), no step and a
+    non-negative integer scalar K: whenever the left side does not raise IndexError it denotes that
+    element (for an absent upper bound both sides raise for the same K).  Applied bottom-up."""
+    import copy as _copy
+
+    class R(ast.NodeTransformer):
+        def visit_Subscript(self, n):
+            self.generic_visit(n)
+            v, k = n.value, n.slice
+            if isinstance(v, ast.Subscript) and isinstance(v.slice, ast.Slice) and v.slice.step is None and isinstance(n.ctx, ast.Load) \
+                    and not isinstance(k, (ast.Slice, ast.Tuple)) and _nonneg_scalar(k):
+                lo = v.slice.lower
+                if lo is None or _is_zero(lo) and type(const_value(lo)) is int:
+                    return ast.copy_location(ast.Subscript(value=v.value, slice=k, ctx=n.ctx), n)
+                if isinstance(lo, ast.Constant) and type(lo.value) is int and lo.value > 0:
+                    return ast.copy_location(ast.Subscript(value=v.value, slice=ast.BinOp(left=k, op=ast.Add(), right=lo), ctx=n.ctx), n)
+            return n
+    return R().visit(_copy.deepcopy(expr))
+
+
 def _matrix_effects(mod, fn, W, depth=1):
     """Everything `fn` can do to the CONTENTS of the object bound to the name
     W, found through the uses of W (not through pinned statement shapes):
@@ -671,6 +819,10 @@ def _matrix_effects(mod, fn, W, depth=1):
     from ..normal import PURE_METHODS
     fi = finfo(mod, fn)
     events, unknown, lost = [], [], []
+
+    def see(e):
+        # temporaries expanded, value helpers replaced by their value, slice-then-index folded, canonical spelling
+        return canon(_fold_slice_index(canon(_inline_values(mod, fi.expand(e, stop=(W,))))))
     for n in walk_local(fn):
         if not (isinstance(n, ast.Name) and n.id == W):
             continue
@@ -684,7 +836,7 @@ def _matrix_effects(mod, fn, W, depth=1):
                 flat = [x for t in tg for x in (t.elts if isinstance(t, (ast.Tuple, ast.List)) else [t])]
                 if par in flat and len(flat) == 1:
                     events.append({'stmt': st, 'kind': 'aug' if isinstance(st, ast.AugAssign) else 'store', 'op': getattr(st, 'op', None),
-                                   'idx': canon(fi.expand(par.slice, stop=(W,))), 'val': canon(fi.expand(st.value, stop=(W,))), 'text': u(st), 'line': getattr(st, 'lineno', 0)})
+                                   'idx': see(par.slice), 'val': see(st.value), 'text': u(st), 'line': getattr(st, 'lineno', 0)})
                 else:
                     unknown.append((st, 'store into %s through `%s`' % (W, u(st)[:80])))
             elif isinstance(par.ctx, ast.Del):
@@ -695,7 +847,7 @@ def _matrix_effects(mod, fn, W, depth=1):
                     T = gp.targets[0].id
                     for ms in fi._mutated_in_place(T):
                         if gp in fi.rd.defs_at(ms, T):
-                            lost.append({'stmt': ms, 'temp': T, 'def': gp, 'idx': canon(fi.expand(par.slice, stop=(W,))), 'text': u(ms)})
+                            lost.append({'stmt': ms, 'temp': T, 'def': gp, 'idx': see(par.slice), 'text': u(ms)})
             continue
         if isinstance(par, ast.Return) or isinstance(par, (ast.BinOp, ast.Compare, ast.UnaryOp)):
             continue
@@ -709,8 +861,8 @@ def _matrix_effects(mod, fn, W, depth=1):
             continue
         if isinstance(par, ast.Call) and n in par.args:
             cn = call_name(par) or ''
-            if cn in _READ_ONLY_CALLS:
-                continue
+            if cn in _READ_ONLY_CALLS or _helper_value(mod, par) is not None:
+                continue                                     # (a value helper only reads its arguments)
             st = fi.stmt(par)
             callee = mod.functions.get(cn) if isinstance(par.func, ast.Name) else None
             if callee is not None and depth > 0 and isinstance(st, ast.Expr) and st.value is par and not par.keywords \
@@ -881,6 +1033,43 @@ def _break_polarity(g):
     return None
 
 
+class _Guard:
+    """A conditional exit of the path loop: the loop is left when `test` has the truth value `pol`.
+    node   statement at which the decision is taken (dominance / reporting anchor)
+    leave  statements executed only on the leaving side (the branch that holds the break)"""
+
+    def __init__(self, node, test, pol, leave):
+        self.node, self.test, self.pol, self.leave = node, test, pol, leave
+
+
+def _flag_exit(mod, fn, fi, loop):
+    """`while FLAG:` driven by a flag instead of `break`: FLAG is a truthy constant before the loop and is
+    bound exactly once in the loop, by a top-level statement `FLAG = E` of the loop body, and every
+    statement that follows it in the body is `if FLAG: ...` (no else).  Then once E is false nothing more
+    is executed and the header test ends the loop, and while E is true the header test passes: the
+    assignment is the exit `if not E: break`.  Returns the _Guard (node = the assignment, test = E,
+    leaves when E is false) or None if the loop does not have that shape."""
+    t = loop.test
+    if not isinstance(t, ast.Name) or loop.orelse:
+        return None
+    FLAG = t.id
+    inner = [s for s in assigns_to(loop, FLAG)]
+    if len(inner) != 1 or not (isinstance(inner[0], ast.Assign) and len(inner[0].targets) == 1 and isinstance(inner[0].targets[0], ast.Name)) \
+            or inner[0] not in loop.body:
+        return None
+    inner = inner[0]
+    outer = [d for d in fi.defs_of_use(t) if d is not inner]
+    if len(outer) != 1 or not isinstance(outer[0], ast.Assign) or _inside(mod, outer[0], loop) or not (
+            len(outer[0].targets) == 1 and isinstance(outer[0].targets[0], ast.Name)) or const_value(outer[0].value) not in (True, 1):
+        return None
+    for s in loop.body[loop.body.index(inner) + 1:]:
+        if not (isinstance(s, ast.If) and isinstance(s.test, ast.Name) and s.test.id == FLAG and not s.orelse):
+            return None
+    if FLAG in names_loaded(inner.value):
+        return None
+    return _Guard(inner, inner.value, False, [])
+
+
 def d4_paths(ck, mod):
     """The constructs are located by role: the search call `top_path(...)`
     fixes the loop, the working matrix (its third argument), the path and the
@@ -921,9 +1110,13 @@ def d4_paths(ck, mod):
     vs = classify(ast.Tuple(elts=[fi.expand(amap[tpp[0]], stop=(sources, sinks, W)), fi.expand(amap[tpp[1]], stop=(sources, sinks, W))], ctx=ast.Load()),
                   ['(%s, %s)' % (sources, sinks)], scope={sources, sinks, W, nf})
     ck.decide(vs, rule + '.search', mod, tps, F, u(tps), 'the search runs from the sources to the sinks', 'top_path must be called with (sources, sinks, <working matrix>)')
+    flag = None
     if fi.xu(loop.test) not in ('True', '1'):
-        ck.missing(rule + '.loop', 'loop condition `%s` of the path loop is not constant: exits through the loop test are not modelled' % u(loop.test))
-        return
+        flag = _flag_exit(mod, fn, fi, loop)
+        if flag is None:
+            ck.missing(rule + '.loop', 'loop condition `%s` of the path loop is neither constant nor a flag that is set once per iteration with everything '
+                       'after it guarded by the flag: exits through the loop test are not modelled' % u(loop.test))
+            return
 
     # ---- the removal: `W = <callable>(W, PATH)` in the loop; W is a copy of the parameter before the loop
     rebinds = [s for s in assigns_to(loop, W)]
@@ -1044,14 +1237,16 @@ def d4_paths(ck, mod):
             continue
         branch = g.body if pol else g.orelse
         exits = [x for x in exits if x not in branch]
-        cont = conjuncts(g.test, not pol)
-        guards.append((g, pol, cont, branch))
+        guards.append(_Guard(g, g.test, pol, branch))
+    if flag is not None:
+        guards.append(flag)
     if exits:
         ck.missing(rule + '.order', 'exit from the path loop not modelled: `%s`' % u(exits[0])[:80])
         return
     nopath_forms = ['np.isinf(%s)' % FLUX, '%s == -np.inf' % FLUX, '-np.inf == %s' % FLUX, "%s == float('-inf')" % FLUX, 'np.isneginf(%s)' % FLUX]
     atoms = {'count': [], 'expl': [], 'nopath': [], 'nopath_inv': [], 'other': []}
-    for g, pol, cont, branch in guards:
+    for g in guards:
+        pol, cont = g.pol, conjuncts(g.test, not g.pol)
         if cont is None:
             stop = conjuncts(g.test, pol) or []
             names = set()
@@ -1059,8 +1254,10 @@ def d4_paths(ck, mod):
                 for e in ((a.lhs, a.rhs) if isinstance(a, Cmp) else (a[1],)):
                     names |= names_loaded(e)
             if names & {npaths, cutoff}:
-                ck.bad(rule + '.limits', mod, g, F, u(g.test), 'the loop must stop when the requested number of paths OR the explained fraction is reached: '
-                       'this test needs several conditions at once (and: ignores one limit)')
+                ck.bad(rule + '.limits', mod, g.node, F, u(g.test), 'the loop must stop when the requested number of paths OR the explained fraction is reached: '
+                       'here the loop is left only when %s hold at once (%s), so one limit alone never ends it' % (
+                           ' AND '.join('`%s`' % (a if isinstance(a, Cmp) else ('' if a[2] else 'not ') + u(a[1])) for a in stop),
+                           'the loop goes on while `%s`' % u(g.test) if not pol else 'the break test is a conjunction'))
                 return
             atoms['other'].append((g, None))
             continue
@@ -1093,15 +1290,15 @@ def d4_paths(ck, mod):
 
     # ---- no path left: stop before anything is recorded
     for g, a in atoms['nopath_inv']:
-        ck.bad(rule + '.no-path', mod, g, F, u(g.test), 'the loop goes on only when the flux IS infinite (no path found) and stops as soon as a real path is found')
+        ck.bad(rule + '.no-path', mod, g.node, F, u(g.test), 'the loop goes on only when the flux IS infinite (no path found) and stops as soon as a real path is found')
     if atoms['nopath_inv']:
         return
-    early = [(g, a) for g, a in atoms['nopath'] if cfg.dominates(tps, g) and all(cfg.dominates(g, s) and not _inside(mod, s, g) for s in rec)]
+    early = [(g, a) for g, a in atoms['nopath'] if cfg.dominates(tps, g.node) and all(cfg.dominates(g.node, s) and not _inside(mod, s, g.node) for s in rec)]
     if early:
-        ck.ok(rule + '.no-path', mod, early[0][0], u(early[0][0].test), 'stop (without recording) when no source->sink path is left')
+        ck.ok(rule + '.no-path', mod, early[0][0].node, u(early[0][0].test), 'stop (without recording) when no source->sink path is left')
     elif atoms['nopath']:
         g = atoms['nopath'][0][0]
-        ck.bad(rule + '.no-path', mod, g, F, u(g.test), 'an infinite flux (no path) must end the loop before anything is recorded: here the test is made '
+        ck.bad(rule + '.no-path', mod, g.node, F, u(g.test), 'an infinite flux (no path) must end the loop before anything is recorded: here the test is made '
                'after `%s`, so the sentinel result of top_path is returned as a pathway' % u(rec[0]))
     else:
         between = [x for x in walk_local(loop) if isinstance(x, ast.If) and cfg.dominates(x, rec[0]) and names_loaded(x.test) & {FLUX, PATH}]
@@ -1130,7 +1327,7 @@ def d4_paths(ck, mod):
         if fi.xu(big) == param and strict:
             return g, small
         # the continue condition is not `<quantity> < param`
-        ck.bad(rule + '.limits', mod, g, F, u(g.test), 'the loop must stop as soon as <quantity> >= %s (%s); here it continues while `%s`' % (param, what, a))
+        ck.bad(rule + '.limits', mod, g.node, F, u(g.test), 'the loop must stop as soon as <quantity> >= %s (%s); here it continues while `%s`' % (param, what, a))
         return None
     lc = limit('count', npaths, 'otherwise one path too many / too few is returned')
     le = limit('expl', cutoff, 'otherwise the explained-flux cut-off is missed')
@@ -1141,7 +1338,7 @@ def d4_paths(ck, mod):
         if qx in ('len(%s)' % PATHS, 'len(%s)' % FLUXES):
             L = PATHS if qx == 'len(%s)' % PATHS else FLUXES
             st = rec[0] if L == PATHS else rec[1]
-            ck.check(cfg.dominates(st, g), rule + '.limits', mod, g, F, u(g.test), 'number of paths found = length of the result list, tested after recording',
+            ck.check(cfg.dominates(st, g.node), rule + '.limits', mod, g.node, F, u(g.test), 'number of paths found = length of the result list, tested after recording',
                      'len(%s) is tested before the current path is recorded: one path too many' % L)
         elif isinstance(q, ast.Name):
             ds = list(fi.defs_of_use(q))
@@ -1155,7 +1352,7 @@ def d4_paths(ck, mod):
             elif not one:
                 ck.missing(rule + '.limits', 'the path counter `%s` is not advanced by exactly one `+= 1` per iteration' % q.id)
             elif len(ds) != 1:
-                ck.bad(rule + '.limits', mod, g, F, u(g.test), 'the path counter `%s` is tested before `%s` has run for the path just recorded: one path too many is returned' % (q.id, u(inc)))
+                ck.bad(rule + '.limits', mod, g.node, F, u(g.test), 'the path counter `%s` is tested before `%s` has run for the path just recorded: one path too many is returned' % (q.id, u(inc)))
             else:
                 init = [d for d in fi.rd.defs_at(inc, q.id) if d is not inc]
                 vi = ('match', {}) if len(init) == 1 and isinstance(init[0], ast.Assign) and const_value(init[0].value) == 0 and not _inside(mod, init[0], loop) \
@@ -1164,7 +1361,7 @@ def d4_paths(ck, mod):
                           u(init[0]) if len(init) == 1 and init[0] not in ('PARAM', 'UNBOUND') else q.id,
                           'path counter starts at 0', 'the path counter must start at 0')
                 ck.check(all(cfg.dominates(s, inc) or cfg.dominates(inc, s) for s in rec) and cfg.dominates(tps, inc) and
-                         all(cfg.dominates(e[0], inc) for e in early), rule + '.limits', mod, inc, F, u(inc),
+                         all(cfg.dominates(e[0].node, inc) for e in early), rule + '.limits', mod, inc, F, u(inc),
                          'the counter advances once per recorded path', 'the counter must advance exactly when a path is recorded')
                 ordered.append(inc)
         else:
@@ -1216,17 +1413,16 @@ def d4_paths(ck, mod):
                     v = classify(texpr, tot_forms, scope={W, nf, sources})
                     ck.decide(v, rule + '.total', mod, tdef, F, u(tdef), 'total = outflow of the sources (rows)', 'total_flux must be the sum of the source ROWS')
     if lc is not None and le is not None:
-        ck.ok(rule + '.limits', mod, lc[0], u(lc[0].test), 'stop when the requested number of paths OR the explained fraction is reached')
+        ck.ok(rule + '.limits', mod, lc[0].node, u(lc[0].test), 'stop when the requested number of paths OR the explained fraction is reached')
 
     # ---- order: record -> test -> remove
     lim_guards = [x[0] for x in (lc, le) if x is not None]
     if lim_guards:
-        first_g = [g for g in lim_guards if all(cfg.dominates(g, h) for h in lim_guards)]
+        first_g = [g for g in lim_guards if all(g.node is h.node or cfg.dominates(g.node, h.node) for h in lim_guards)]
         before = rec + ordered
-        ok_before = all(cfg.dominates(s, g) and not _inside(mod, s, g) for s in before for g in lim_guards) and all(cfg.dominates(tps, s) for s in before)
-        ok_after = rm is None or all(cfg.dominates(g, rm) and not any(rm is x or _inside(mod, rm, x) for x in (g.body if _break_polarity(g) else g.orelse))
-                                     for g in lim_guards)
-        ck.check(ok_before and ok_after and bool(first_g), rule + '.order', mod, lim_guards[0], F, 'record -> test -> remove',
+        ok_before = all(cfg.dominates(s, g.node) and not _inside(mod, s, g.node) for s in before for g in lim_guards) and all(cfg.dominates(tps, s) for s in before)
+        ok_after = rm is None or all(cfg.dominates(g.node, rm) and not any(rm is x or _inside(mod, rm, x) for x in g.leave) for g in lim_guards)
+        ck.check(ok_before and ok_after and bool(first_g), rule + '.order', mod, lim_guards[0].node, F, 'record -> test -> remove',
                  'path is recorded, then the limits are tested, then the path is removed',
                  'the loop must record the path (and update counter and explained flux), test the limits, and only then remove the path')
 
